@@ -125,6 +125,16 @@ func alphaPicture(rng *rand.Rand, w, h int, pattern string, typ string) (image.I
 			img.SetNRGBA(x, y, c)
 		}
 	}
+	nrgbaView := func() *image.NRGBA { // a window into a larger parent full of other pixels
+		parent := image.NewNRGBA(image.Rect(0, 0, w+7, h+5))
+		rng.Read(parent.Pix)
+		for y := 0; y < h; y++ {
+			for x := 0; x < w; x++ {
+				parent.SetNRGBA(3+x, 2+y, img.NRGBAAt(x, y))
+			}
+		}
+		return parent.SubImage(image.Rect(3, 2, 3+w, 2+h)).(*image.NRGBA)
+	}
 	switch typ {
 	case "RGBA":
 		r := image.NewRGBA(img.Rect)
@@ -136,6 +146,24 @@ func alphaPicture(rng *rand.Rand, w, h int, pattern string, typ string) (image.I
 		return r, plane
 	case "generic":
 		return genericImage{img}, plane
+	case "generic-view", "NRGBA64-view":
+		// the generic At() path on a picture whose bounds do not start at (0,0)
+		v, pl := nrgbaView(), plane
+		if typ == "generic-view" {
+			return genericImage{v}, pl
+		}
+		b := v.Bounds()
+		parent := image.NewNRGBA64(image.Rect(0, 0, b.Max.X+4, b.Max.Y+3))
+		for i := range parent.Pix {
+			parent.Pix[i] = uint8(rng.Intn(256))
+		}
+		for y := b.Min.Y; y < b.Max.Y; y++ {
+			for x := b.Min.X; x < b.Max.X; x++ {
+				c := v.NRGBAAt(x, y)
+				parent.SetNRGBA64(x, y, color.NRGBA64{uint16(c.R) * 257, uint16(c.G) * 257, uint16(c.B) * 257, uint16(c.A) * 257})
+			}
+		}
+		return parent.SubImage(b), pl
 	case "NRGBA-view", "RGBA-view":
 		// a window into a larger parent full of other pixels: non-zero origin, Stride > 4*width
 		pr := image.Rect(0, 0, w+7, h+5)
@@ -199,7 +227,7 @@ func checkC07(args []string) {
 			w, h = 64+rng.Intn(48), 64+rng.Intn(30)
 		}
 		pat := alphaPatterns[rng.Intn(len(alphaPatterns))]
-		typ := []string{"NRGBA", "NRGBA", "RGBA", "generic", "NRGBA-view", "RGBA-view"}[rng.Intn(6)]
+		typ := []string{"NRGBA", "NRGBA", "RGBA", "generic", "NRGBA-view", "RGBA-view", "generic-view", "NRGBA64-view"}[rng.Intn(8)]
 		o := *webp.DefaultOptions()
 		o.Quality = float32(rng.Intn(101))
 		o.Method = rng.Intn(7)
